@@ -26,6 +26,8 @@ func checkC14(c *Ctx, r *Report) {
 	foldRangeRule(c, r, "C14.R5.canonical-fold", "CanonicalName", "patterns and question names containing the letter left out are not brought to the same case, and such queries go to the wrong handler")
 	borrow(c, r, checkC16, "C16.R2.no-buffer-alias", "C14.R4.request-not-pooled", 100, "the decoded request shares no memory with the receive buffer, which serveDNS returns to the pool before it calls the handler", nil, "while the handler runs, a later datagram is read into the recycled buffer and the request changes under it")
 	borrow(c, r, c12R1, "C12.R1.stream-read", "C14.R1.stream-read", 3, "a stream message is read as a full 2-octet length and then exactly that many octets", nil, "a length prefix that arrives split is mis-read, the stream is mis-framed and valid queries on that connection are never handled")
+	r.rule("C14.R5.label-scan", 1, "NextLabel's (and PrevLabel's) backward scan over the backslashes before a dot can reach index 0")
+	backslashScanReachesZero(c, r, "C14.R5.label-scan", []string{"NextLabel", "PrevLabel"}, "the multiplexer, which walks the question name with NextLabel, never looks up the suffix behind that dot: a query whose first label is a backslash is REFUSED although a handler for its parent zone is registered")
 }
 
 func isHandlerInvoke(in ssa.Instruction) bool {
